@@ -64,6 +64,8 @@ def run(ctx: Ctx):
     model = ctx.model
     from .common_node import names_resolve
     names_resolve(ctx, "C07-RN")
+    from .common_codec import no_shared_default_objects
+    no_shared_default_objects(ctx, "C07-R12", [f_ for f_ in model.all_funcs() if ".node" in f_.module.name], "the node package")
     from . import c05 as _c05
     ctx.include(_c05.run, {"C05-R6"}, "C07-R10",
                 "the reader hands every parsed request to the node once: the per-frame variables "
